@@ -160,3 +160,30 @@ Proof.
     rewrite !cwords_convert_dumps. apply (Rkv_lookup _ _ (fst kf) HK).
   - apply Rgroup_kv, Rgroup_filter; [|assumption]. intros e e' He. now rewrite (Hroute e e' He).
 Qed.
+
+(* ---------- whole copyright objects ---------- *)
+
+Definition Rpara (p p' : para) : Prop :=
+  p_type p = p_type p' /\
+  Forall2 (fun kv kv' => fst kv = fst kv' /\ cwords (fval_dumps (snd kv)) = cwords (fval_dumps (snd kv'))) (p_fields p) (p_fields p') /\
+  Forall2 Rkv (p_extra p) (p_extra p').
+
+Theorem markers_replaced_object ps ps' : wf_doc_b ps -> wf_doc_b ps' -> Rdoc ps ps' ->
+  Forall (fun g => classify g <> PCatchAll /\ NoDup (map fname (live g))) (expected_doc_b 1 ps) ->
+  exists paras paras', from_text (doc_text ps) = Ok paras /\ from_text (doc_text ps') = Ok paras' /\ Forall2 Rpara paras paras'.
+Proof.
+  intros Hw Hw' HR Hg. pose proof (Rdoc_expected ps ps' HR 1) as HE.
+  destruct (from_text_total (doc_text ps)) as (paras & E). destruct (from_text_total (doc_text ps')) as (paras' & E').
+  exists paras, paras'. split; [exact E|]. split; [exact E'|].
+  unfold from_text in E, E'. rewrite wf_doc_b_text_parses in E by exact Hw. rewrite wf_doc_b_text_parses in E' by exact Hw'. cbn [bind] in E, E'.
+  assert (Hc : Forall (fun g => classify g <> PCatchAll) (expected_doc_b 1 ps)) by (eapply Forall_impl; [|exact Hg]; now intros g [H _]).
+  assert (Hc' : Forall (fun g => classify g <> PCatchAll) (expected_doc_b 1 ps')).
+  { clear -HE Hc. induction HE as [|g g' gs gs' Hgg _ IH]; [constructor|]. inversion Hc; subst. constructor; [|now apply IH].
+    now rewrite <- (Rgroup_classify g g' Hgg). }
+  pose proof (paragraph_per_group _ _ E Hc) as F. pose proof (paragraph_per_group _ _ E' Hc') as F'.
+  clear E E' Hc Hc'. revert paras paras' F F' Hg. induction HE as [|g g' gs gs' Hgg _ IH]; intros paras paras' F F' Hg.
+  - inversion F; inversion F'; subst. constructor.
+  - inversion F as [|? p ? prest [Hp _] Frest]; inversion F' as [|? p' ? prest' [Hp' _] Frest']; subst.
+    inversion Hg as [|? ? [_ Hnd] Hg']; subst. constructor; [|now apply IH].
+    rewrite <- (Rgroup_classify g g' Hgg) in Hp'. exact (markers_replaced_paragraph _ g g' p p' Hgg Hnd Hp Hp').
+Qed.
